@@ -511,8 +511,9 @@ func (vc *VC) appendPrefixLemma(pre, post *State, elem types.Type, s, res string
 		if _, isArr := c.typ.Underlying().(*types.Array); isArr {
 			return
 		}
-		a := fmt.Sprintf("(select %s %s)", vc.memAt(post, c.typ), vc.pathPtr(e.elemPtr(res, "j"), c.path))
-		b := fmt.Sprintf("(select %s %s)", vc.memAt(pre, c.typ), vc.pathPtr(e.elemPtr(s, "j"), c.path))
+		vc.enc.registerMem(c.mem, c.typ)
+		a := fmt.Sprintf("(select %s %s)", vc.memAtByName(post, c.mem), vc.pathPtr(e.elemPtr(res, "j"), c.path))
+		b := fmt.Sprintf("(select %s %s)", vc.memAtByName(pre, c.mem), vc.pathPtr(e.elemPtr(s, "j"), c.path))
 		eqs = append(eqs, fmt.Sprintf("(= %s %s)", a, b))
 	}
 	vc.emit(fmt.Sprintf("(assert (forall ((j Int)) (! (=> (and (<= 0 j) (< j %s)) %s) :pattern (%s))))", sLen(s), and(eqs...), e.elemPtr(res, "j")))
